@@ -218,7 +218,13 @@ def _cancel_await(ctx, fn: Fn, storage: str):
     if direct and awaited:
         tests = fn.presence(storage)
         start = fn.branch(tests[0][0], tests[0][1]).id if tests else fn.cfg.entry.id
-        return fn.cfg.all_paths_pass(start, [fn.cfg.exit.id], [n.id for n in direct], NONEXC) and fn.cfg.all_paths_pass(start, [fn.cfg.exit.id], [n.id for n in awaited], NONEXC | {"exc"})
+        ok = fn.cfg.all_paths_pass(start, [fn.cfg.exit.id], [n.id for n in direct], NONEXC) and fn.cfg.all_paths_pass(start, [fn.cfg.exit.id], [n.id for n in awaited], NONEXC | {"exc"})
+        if ok and tests:
+            # the presence test is the ONLY way around the cancellation: from the entry every normal path meets the cancel or
+            # the "no task stored" branch of that test (a second conjunct such as `self._zones and <task>` skips a live task)
+            absent = fn.branch(tests[0][0], "false" if tests[0][1] == "true" else "true").id
+            ok = fn.cfg.all_paths_pass(fn.cfg.entry.id, [fn.cfg.exit.id], [n.id for n in direct] + [absent], NONEXC)
+        return ok
     # container
     for lp in [n for n in ast.walk(src) if isinstance(n, ast.For)]:
         if dotted(lp.iter) == storage and isinstance(lp.target, ast.Name):
